@@ -235,9 +235,9 @@ def fmt_engine(ex, finto, val):
     for h in ex.elements(headers[1][0]):
         n, v = h[1]
         variant = n[1].split("::")[-1]
-        hs.append((variant if variant != "Custom" else 'Custom("%s")' % sb(n[2][0]).decode("latin-1"), sb(v)))
+        hs.append((variant if variant != "Custom" else 'Custom("%s")' % c02_req.rust_debug_escape(sb(n[2][0]).decode("utf-8", "replace")), sb(v)))
     def esc(b):
-        return b.decode("utf-8", "replace").replace("\\", "\\\\").replace('"', '\\"').replace("\t", "\\t")
+        return c02_req.rust_debug_escape(b.decode("utf-8", "replace"))
     hx = lambda b: b.hex() if b else "-"
     return "OK %s|%d|Headers([%s])|%s" % (hx(sb(version)), ci(_status_number(ex, finto, status)), ", ".join('Header { name: %s, value: "%s" }' % (n, esc(v)) for n, v in hs), hx(bytes(ci(c) for c in ex.elements(body))))
 
@@ -411,7 +411,7 @@ def _expected_concrete(name, data, tier):
     else:
         code = tpl["status"]
     def esc(b):
-        return bytes(b).decode("latin-1").replace("\\", "\\\\").replace('"', '\\"').replace("\t", "\\t")
+        return c02_req.rust_debug_escape(bytes(b).decode("latin-1"))
     hs = []
     for ename, evalue in tpl["headers"]:
         v = KNOWN.get(ename.lower())
